@@ -629,9 +629,6 @@ Lemma sim_sample_head chroms ends p ha hb prev h0 hd evs :
   end.
 Proof. unfold sim_sample. destruct chroms; reflexivity. Qed.
 
-Definition res_map {A B} (f : A -> B) (r : res A) : res B :=
-  match r with Ok a => Ok (f a) | Err k => Err k end.
-
 (* The per-child loop of _simulate, as translated from the current source, computes exactly
    C01_Model.sim_sample (the model the tiling / mosaic theorems of C01 and C02 are about): same
    tracts, same exception kind, for every chromosome list, end list, parent pair, draw stream
